@@ -314,7 +314,18 @@ func (vc *VC) mergeVals(pcs []string, vals []Val, name string) Val {
 		}
 		out[i] = vc.mergeTerms(pcs, ts, ls[i].sort, "m."+name)
 	}
-	return unflatten(t, out)
+	res := unflatten(t, out)
+	if res.K == KSlice {
+		// exclusively owned on every incoming path => exclusively owned after the join
+		own := true
+		for _, v := range vals {
+			if v.K != KSlice || !v.Own {
+				own = false
+			}
+		}
+		res.Own = own
+	}
+	return res
 }
 
 func sameVal(a, b Val) bool {
